@@ -28,7 +28,7 @@ CHECKS = {
     "C07": dict(
         technique="generated wall times (complete transition neighbourhoods + seeded random) vs occurrence-set oracle derived from zic",
         text="Every zone of zonedbx and zonedb x every wall minute within +-200 min of every transition, every minute of the first and last two days of 2000-01-01T00:00:00..2049-12-31T23:59:59 local, every second within "
-             "+-61 s of every gap/overlap edge (thorough: +-1 h), all Dec 31/Jan 1 wall minutes, and 500 (thorough 5,000) "
+             "+-61 s of every gap/overlap edge (thorough: +-1 h and EVERY wall minute of the fifty years, 1.8e10 resolutions), all Dec 31/Jan 1 wall minutes, and 500 (thorough 5,000) "
              "seed-drawn wall times per zone: ~1e8 resolutions per run. Expected result computed from the set of real "
              "occurrences {t : t+utoff(t)=w} of the zic oracle; checks non-error, normalisation, identity when unique, "
              "later occurrence (Extended) / any occurrence (Basic) in overlaps, pre-gap offset in gaps.",
